@@ -99,6 +99,10 @@ def shaped(rng):
         # (stamped exactly with that callback's time): both are due at once and must share one tick
         *[{"components": [dev("X", cb={"kind": "period", "p": 60 * P}), dev("Y")], "n_ticks": 4, "speed": sp,
            "stims": [{"real": 60 * P * sp[1] // sp[0] - 10 - k, "pre_cost": 10 + k, "comp": "Y"}]} for sp in ([1, 1], [1, 2]) for k in (0, 3)],
+        # ... and k loop iterations after that instant, i.e. around the moment the master's sleep expires and the tick
+        # starts: whatever has asked before the tick starts shares it
+        *[{"components": [dev("X", cb={"kind": "period", "p": 60 * P}), dev("Y")], "n_ticks": 4,
+           "stims": [{"real": 60 * P, "yields": k, "comp": "Y"}]} for k in range(0, 7)],
         {"components": [dev("p", cb={"kind": "period", "p": 10 * P}), dev("q", {"i": ["p", "o"]})], "n_ticks": 7,
          "stims": [{"real": 5 * P + 111, "comp": "p"}, {"real": 23 * P + 111, "comp": "p"}, {"real": 27 * P + 111, "comp": "q"}]},
     ]
